@@ -9,6 +9,7 @@ from __future__ import annotations
 
 from typing import TYPE_CHECKING
 
+from xknx.cemi.const import MAX_NPDU_LENGTH
 from xknx.dpt.dpt import DPTArray, DPTBinary
 from xknx.exceptions import ConversionError, CouldNotParseTelegram
 
@@ -55,6 +56,12 @@ class RemoteValueRaw(RemoteValue[int]):
                 raise ConversionError(
                     "Could not init DPTBinary", value=str(value)
                 ) from err
+        if not 0 < self.payload_length < MAX_NPDU_LENGTH:
+            # the APCI octet and the payload have to fit a single frame
+            raise ConversionError(
+                "Payload length can not be sent in a frame",
+                payload_length=self.payload_length,
+            )
         try:
             return DPTArray(value.to_bytes(length=self.payload_length, byteorder="big"))
         except (AttributeError, OverflowError) as err:
